@@ -10,7 +10,7 @@ SIM = 'deterministic whole-stack simulator (virtual clock, fake transports) driv
 CHECKS = {
     'C01': dict(
         technique='property-based testing (Hypothesis) with differential round-trip oracle against an independent RFC 1035 codec',
-        text='Generated messages (shared-suffix name pools, all record kinds, remaining-TTL modes, bulk up to 400 entries aimed at '
+        text='Generated messages (shared-suffix name pools that may contain the root name, all record kinds, remaining-TTL modes, bulk up to 400 entries aimed at '
              'the 1460/8966-byte limits) are built with DNSOutgoing and decoded with DNSIncoming and an independent decoder; '
              'per-section equality with the expectation computed from the case. Exploration only: no absence claim.',
         note='trusts vlib/wire.py (independent codec) and Hypothesis; names bounded in characters as the property states',
@@ -83,7 +83,7 @@ CHECKS.update({
         technique='property-based testing of generated query scenarios in the simulator; oracle = ResponderModel + routing rules over the independently decoded trace',
         text=SIM + 'one measured query (QU/QM mix, probe, legacy or mDNS port, v4/v6, listen or respond socket) arrives at a generated offset or on the '
              '{-2..+2} ms grid around a quarter of a record TTL after its last perceived multicast; destination, socket, id, echoed questions, flush bits and '
-             'unicast-vs-multicast choice of every reply are checked, plus header/flush/group/all-sockets format of every multicast of the run.',
+             'unicast-vs-multicast choice of every reply are checked, plus header/flush/group/all-sockets format of every multicast of the run; in a third of the legacy-port cases a second source sends the same bytes 0-1001 ms later and must get its own unicast reply.',
         note='sighting = the host\'s own perception via a spy listener; PTR-floor interval is don\'t-care; additionals are C03\'s subject',
         ref='3/C11'),
 })
@@ -112,7 +112,7 @@ CHECKS.update({
         technique='property-based testing of generated shutdown schedules in the deterministic simulator and, for the thread clause, on a real-thread world with compressed time; invariant oracle over trace, callback log, task/thread outcomes and the loop exception handler',
         text=SIM + 'async_close() is requested at generated instants (grid around registration steps, queued answers, TC holds, browser start-up, pending lookups) '
              'or aimed at the periodic purge timer to within a few event-loop iterations of 1 us-1 ms virtual cost, on a victim with an active peer and a never-removed RecordUpdateListener; nothing may be sent or called back after close returned, in-flight coroutines finish with documented outcomes, '
-             'registered services get three complete goodbyes and the last multicast about each of the instance\'s records before the sockets close carries TTL 0, a second close is silent, 3 h of virtual time stay quiet. About one case in sixty runs Zeroconf() with its own loop thread on a real selector loop (clock compressed 10x) and calls close() from a non-loop thread while calls on other threads are in flight.',
+             'registered services get three complete goodbyes and the last multicast about each of the instance\'s records before the sockets close carries TTL 0, a second close is silent, 3 h of virtual time stay quiet. About one case in sixty runs Zeroconf() with its own loop thread on a real selector loop (clock compressed 10x) and calls close() from a non-loop thread while calls on other threads are in flight and slow listeners start further browsers from their callbacks; one case in fifteen closes the instance 0-6 loop iterations after its constructor returned.',
         note='the real-thread cases are not pure functions of the case (OS scheduling): their oracle is timing-free and a violation observed once stands; virtual-time busy loops are reported via an iteration budget',
         ref='3/C17'),
 })
@@ -180,7 +180,7 @@ CHECKS.update({
         technique='property-based scenario generation on a simulated multi-host link plus single-datagram-loss fault enumeration (each generated schedule re-run with datagram k dropped); convergence oracle over browser callbacks and lookups',
         text=SIM + '2-5 hosts (joining at the start or just before first use), 1-6 services (one host name each, or one per machine), 1-4 browsers (question type default/QM/QU), withdrawal races against queued answers, register/update/unregister/close at generated times, 0-100 ms '
              'per-receiver delays, optional duplication; each schedule is run without loss and then with one datagram dropped (three targeted k in the quick tier, every k for '
-             'N <= 120 in the thorough tier). After 20 s every active browser must report exactly the registered instances, in a third of the scenarios also 80 or 160 minutes later (and so must a browser started in between); lookups from Added callbacks must resolve the advertised data, TXT and port judged against an RFC 6762 s10 view of what was delivered to the looking-up host.',
+             'N <= 120 in the thorough tier). After 20 s every active browser must report exactly the registered instances, in a third of the scenarios also 80 or 160 minutes later (and so must a browser started in between, also one started 50 ms after a pointer nobody refreshed ran out in its host\'s cache); lookups from Added callbacks must resolve the advertised data, TXT and port judged against an RFC 6762 s10 view of what was delivered to the looking-up host.',
         note='operations on one host are sequential and await the returned broadcast task; same-family address updates only; evaluations counts executed runs',
         ref='3/C07'),
 })
